@@ -29,6 +29,13 @@ type Case struct {
 	// statements, the resumed attempt stops after K), so part of the recorded progress was written by
 	// a RESUMED run.
 	K0 int `json:"k0,omitempty"`
+	// Mid != nil: a THIRD attempt is the one under test. After the first attempt (K of N applied) the
+	// file is replaced by Mid (same applied part, a different and usually longer tail) and a second
+	// attempt resumes and stops again with KMid statements applied; Out is then an edit of Mid.
+	Mid  []string `json:"mid,omitempty"`
+	KMid int      `json:"kmid,omitempty"`
+	// Text > 0: another family of statement texts (the checksums recorded per statement depend on it).
+	Text int `json:"text,omitempty"`
 }
 
 func init() {
@@ -50,8 +57,14 @@ func init() {
 	}})
 }
 
-func orig(n int) []string {
+func orig(n int, text ...int) []string {
 	o := make([]string, n)
+	if len(text) > 0 && text[0] > 0 {
+		for i := range o {
+			o[i] = fmt.Sprintf("CREATE TABLE %c%d(c int);", 'a'+i, text[0])
+		}
+		return o
+	}
 	for i := range o {
 		o[i] = fmt.Sprintf("SELECT 's%d  x';", i+1) // two blanks inside the literal: a whitespace-only edit is an edit
 	}
@@ -79,7 +92,7 @@ func write(dir *migrate.MemDir, cs Case, stmts []string) {
 }
 
 func one(cs Case) (why, key string, trace []string) {
-	o := orig(cs.N)
+	o := orig(cs.N, cs.Text)
 	ver := fmt.Sprint(cs.Extra + 1)
 	dir := &migrate.MemDir{}
 	write(dir, cs, o)
@@ -114,6 +127,25 @@ func one(cs Case) (why, key string, trace []string) {
 	if r := w.Revs[ver]; r == nil || r.Applied != cs.K || (r.Error == "") != cs.Crash {
 		return fmt.Sprintf("setup: partial revision is %s, want applied=%d", world.SemRev(r), cs.K), "setup", nil
 	}
+	k := cs.K
+	if cs.Mid != nil {
+		write(dir, cs, cs.Mid)
+		w.ExecN, w.WriteN, w.FailWrite = 0, 0, 0
+		w.FailExec = cs.KMid - cs.K + 1
+		exm, err := migrate.NewExecutor(w, dir, w)
+		if err != nil {
+			return "NewExecutor: " + err.Error(), "setup", nil
+		}
+		if err := exm.ExecuteN(context.Background(), 0); err == nil {
+			return "setup: second failing run did not fail", "setup", nil
+		} else if hc := (migrate.HistoryChangedError{}); errors.As(err, &hc) {
+			return fmt.Sprintf("second attempt (tail-only edit %v -> %v after %d applied) refused: %v", o, cs.Mid, cs.K, err), "tail|error", nil
+		}
+		if r := w.Revs[ver]; r == nil || r.Applied != cs.KMid {
+			return fmt.Sprintf("second attempt: partial revision is %s, want applied=%d", world.SemRev(r), cs.KMid), "tail|wrong-progress", nil
+		}
+		o, k = cs.Mid, cs.KMid
+	}
 	before := world.SemRev(w.Revs[ver])
 	var others []string
 	for f := 0; f < cs.Extra; f++ {
@@ -140,13 +172,16 @@ func one(cs Case) (why, key string, trace []string) {
 			execs = append(execs, x.Stmt)
 		}
 	}
-	prefixSame := len(cs.Out) >= cs.K && strings.Join(cs.Out[:cs.K], "\x00") == strings.Join(o[:cs.K], "\x00")
+	prefixSame := len(cs.Out) >= k && strings.Join(cs.Out[:k], "\x00") == strings.Join(o[:k], "\x00")
 	editKind := cs.Edit
+	if i := strings.LastIndex(editKind, ":"); i >= 0 {
+		editKind = editKind[i+1:]
+	}
 	if i := strings.Index(editKind, "@"); i >= 0 {
 		editKind = editKind[:i]
 	}
 	if prefixSame {
-		want := append([]string(nil), cs.Out[cs.K:]...)
+		want := append([]string(nil), cs.Out[k:]...)
 		if len(want) == 0 {
 			want = nil
 		}
@@ -257,22 +292,79 @@ func run(c *rt.Ctx) {
 			}
 		}
 	}
+	// two consecutive incomplete attempts with a tail that changes (and grows) in between
+	for n := 2; n <= 4; n++ {
+		o := orig(n)
+		for k := 1; k < n; k++ {
+			mids := [][]string{
+				append(append([]string(nil), o...), "M1;", "M2;"),
+				append(append([]string(nil), o[:k]...), "T1;", "T2;", "T3;", "T4;"),
+				append(append(append([]string(nil), o[:k]...), "I1;"), o[k:]...),
+			}
+			for mi, mid := range mids {
+				for km := k; km < len(mid); km++ {
+					add := func(name string, out []string) {
+						cases = append(cases, Case{N: n, K: k, Edit: fmt.Sprintf("mid%d/%d:%s", mi, km, name), Out: out, Style: "nl", Mid: mid, KMid: km})
+					}
+					add("none", append([]string(nil), mid...))
+					tl := append([]string(nil), mid...)
+					tl[km] = "FIXED;"
+					add("change-tail", tl)
+					add("append", append(append([]string(nil), mid...), "A1;"))
+					for i := 0; i < km; i++ {
+						ch := append([]string(nil), mid...)
+						ch[i] = fmt.Sprintf("SELECT 'c%d  x';", i+1)
+						add(fmt.Sprintf("change@%d", i), ch)
+					}
+					add(fmt.Sprintf("truncate@%d", km-1), append([]string(nil), mid[:km-1]...))
+				}
+			}
+		}
+	}
+	// many statement texts: the per-statement checksums recorded for the applied part depend on them
+	texts := 200
+	if !c.Quick() {
+		texts = 1500
+	}
+	for t := 1; t <= texts; t++ {
+		o := orig(4, t)
+		for _, k := range []int{1, 3} {
+			cases = append(cases, Case{N: 4, K: k, Text: t, Edit: "text:none", Out: append([]string(nil), o...), Style: "nl"})
+			tl := append([]string(nil), o...)
+			tl[3] = "FIXED;"
+			cases = append(cases, Case{N: 4, K: k, Text: t, Edit: "text:change-tail", Out: tl, Style: "nl"})
+			ch := append([]string(nil), o...)
+			ch[k-1] = "CHANGED;"
+			cases = append(cases, Case{N: 4, K: k, Text: t, Edit: fmt.Sprintf("text:change@%d", k-1), Out: ch, Style: "nl"})
+		}
+	}
 	c.Par(len(cases), func(i int, w *rt.W) {
 		cs := cases[i]
 		w.Begin(cs)
 		why, key, tr := one(cs)
 		kind := cs.Edit
+		if j := strings.LastIndex(kind, ":"); j >= 0 {
+			kind = kind[j+1:]
+		}
 		if j := strings.Index(kind, "@"); j >= 0 {
 			kind = kind[:j]
 		}
-		prefixSame := len(cs.Out) >= cs.K && strings.Join(cs.Out[:cs.K], "\x00") == strings.Join(orig(cs.N)[:cs.K], "\x00")
+		bo, bk := orig(cs.N, cs.Text), cs.K
+		if cs.Mid != nil {
+			bo, bk = cs.Mid, cs.KMid
+			c.Count("setup:three-attempts(tail changed between two incomplete attempts)", 1)
+		}
+		if cs.Text > 0 {
+			c.Count("setup:statement-text-family", 1)
+		}
+		prefixSame := len(cs.Out) >= bk && strings.Join(cs.Out[:bk], "\x00") == strings.Join(bo[:bk], "\x00")
 		cls := "prefix-changed"
 		if prefixSame {
 			cls = "tail-only"
 		}
 		c.Count("edit:"+kind, 1)
 		c.Count("class:"+cls, 1)
-		c.Eval(rt.Digest(cs.N, cs.K, cs.K0, cs.Edit, cs.Extra, cs.Style, cs.Crash, tr), cs.Edit != "none")
+		c.Eval(rt.Digest(cs.N, cs.K, cs.K0, cs.Edit, cs.Extra, cs.Style, cs.Crash, cs.Text, tr), cs.Edit != "none")
 		if cs.K0 > 0 {
 			c.Count("setup:two-stage(progress partly recorded by a resumed run)", 1)
 		}
